@@ -28,6 +28,12 @@ class Batch:
         return i
 
     def add_protocol_trace(self, trace: dict) -> int:
+        # times are whole ticks as long as the library only waits for what the scenario configured; a change that sleeps
+        # for other amounts (a back-off of 0.1 s, say) puts events between ticks: such a trace is judged in units of
+        # 1/1000 tick (every time and the constants T / CT scaled alike), never refused
+        def offgrid(t):
+            return not isinstance(t, int) and abs(t - round(t)) >= 1e-9
+        scale = 1000 if any(offgrid(ev.get("t", 0)) for ev in trace["ev"]) else 1
         evs = []
         for ev in trace["ev"]:
             if ev["e"] in ("DLVDROP", "SENDDROP", "LOOPEND"):
@@ -44,14 +50,12 @@ class Batch:
                     continue
                 else:
                     d[k] = v
-            t = d["t"]
-            if not isinstance(t, int):
-                if abs(t - round(t)) < 1e-9:
-                    d["t"] = int(round(t))
-                else:
-                    raise ValueError(f"off-grid time {t!r} in trace")
+            d["t"] = int(round(d["t"] * scale))
             evs.append(d)
-        self.traces.append({"meta": trace["meta"], "ev": evs})
+        meta = trace["meta"]
+        if scale != 1:
+            meta = dict(meta, T=meta["T"] * scale, CT=meta["CT"] * scale)
+        self.traces.append({"meta": meta, "ev": evs})
         self.sources.append(trace.get("sc", {}))
         return len(self.traces)
 
